@@ -17,6 +17,11 @@ import (
 
 func main() {
 	b, _ := io.ReadAll(os.Stdin)
+	if len(os.Args) > 1 && os.Args[1] == "-var" {
+		m, err := exec.ExecVarInputText(string(b))
+		fmt.Println(m, err)
+		return
+	}
 	if len(os.Args) > 1 && os.Args[1] == "-raw" {
 		v, err := exec.NewInterpreter("x").SetExternalLibs(zn.Libs()).LoadScript([]rune(string(b))).Execute(r.ElementMap{})
 		if err != nil {
